@@ -5,9 +5,17 @@ package main
 //
 // op:  cast ENGINE VALUE TYPE   (VALUE: `at T` | `nil` | `sm V` | `rf AUTH V`; T and TYPE in the Polish
 //                                notation of stream `types`, nominal facts written out)
-//   -> c=0|1 i=0|1 g=0|1 rty=<type of the cast result, location prefix removed | ->  f=ok|fail
+//   -> c=0|1 i=0|1 g=0|1 rty=<run-time type of the cast result, location prefix removed | ->  f=ok|fail
 //      c: `v as? T` is non-nil; i: `v.isInstance(Type<T>())`; g: `v.getType().isSubtype(of: Type<T>())`;
 //      f: a second script evaluating `v as! T` finished (ok) or raised ForceCastTypeMismatchError (fail)
+//
+// op:  cast both VALUE DECLARED-TYPE TYPE   (resource values: the cast moves them)
+//   -> <interp observation> || <vm observation>, each
+//      c=0|1 i=0|1 g=0|1 vty=<v.getType().identifier> rty=<type of the `as?` result|-> ri=<probe bits|->
+//      f=ok|fail frty=<type of the `as!` result|-> fri=<probe bits|->
+//      script 1 creates the resource, asks isInstance / getType, casts it with `as?` (moving it), asks the
+//      result for its run-time type and for `isInstance` of the probe types (rcastProbes) and destroys it;
+//      script 2 does the same with `as!`.
 
 import (
 	"fmt"
@@ -28,11 +36,16 @@ func init() {
 const castDecls = `
 access(all) entitlement E
 access(all) entitlement F
+access(all) entitlement G
 access(all) struct interface SI {}
 access(all) struct interface SK {}
 access(all) struct S: SI {}
 access(all) struct S2 {}
 access(all) enum En: UInt8 { access(all) case a }
+access(all) resource interface RI {}
+access(all) resource interface RK {}
+access(all) resource R: RI {}
+access(all) resource R2 {}
 `
 
 type castValue struct {
@@ -97,6 +110,21 @@ var castValues = []castValue{
 	// containers of references (casting to AnyStruct strips the entitlements from the static type)
 	{"at va r c:E p Int", "let n = 1", "[auth(E) &Int]", "[&n]"},
 	{"at va r u p Int", "let n = 1", "[&Int]", "[&n]"},
+	// references authorized by two-entitlement sets (conjunctions / disjunctions that overlap with the
+	// target types' sets), top-level and nested in arrays / dictionaries / optionals
+	{"rf c:E,F at p Int", "let n = 1", "auth(E, F) &Int", "&n"},
+	{"rf d:E,F at p Int", "let n = 1", "auth(E | F) &Int", "&n"},
+	{"sm rf c:E,F at p Int", "let n = 1", "(auth(E, F) &Int)?", "&n"},
+	{"at va r c:E,F p Int", "let n = 1", "[auth(E, F) &Int]", "[&n]"},
+	{"at va r d:E,F p Int", "let n = 1", "[auth(E | F) &Int]", "[&n]"},
+	{"at va r c:F,G p Int", "let n = 1", "[auth(F, G) &Int]", "[&n]"},
+	{"at ca 1 r c:E,F p Int", "let n = 1", "[auth(E, F) &Int; 1]", "[&n]"},
+	{"at va o r c:E,F p Int", "let n = 1", "[(auth(E, F) &Int)?]", "[&n]"},
+	{"at va va r d:E,F p Int", "let n = 1", "[[auth(E | F) &Int]]", "[[&n]]"},
+	{"at d p String r c:E,F p Int", "let n = 1", "{String: auth(E, F) &Int}", `{"a": &n}`},
+	{"at d p String r d:E,F p Int", "let n = 1", "{String: auth(E | F) &Int}", `{"a": &n}`},
+	{"sm at va r c:E,F p Int", "let n = 1", "[auth(E, F) &Int]?", "[&n]"},
+	{"sm at d p String r d:E,F p Int", "let n = 1", "{String: auth(E | F) &Int}?", `{"a": &n}`},
 }
 
 type castType struct{ enc, src string }
@@ -122,6 +150,16 @@ var castTypes = []castType{
 	{"r u p Int", "&Int"}, {"r c:E p Int", "auth(E) &Int"}, {"r u p Integer", "&Integer"},
 	{"r u va p Int", "&[Int]"}, {"r c:E va p Int", "auth(E) &[Int]"}, {"r u va p AnyStruct", "&[AnyStruct]"},
 	{"o r u " + castS, "(&S)?"},
+	// two-entitlement sets overlapping with those of the values (E,F / E,G / F,G / E|F / E|G)
+	{"r c:E,F p Int", "auth(E, F) &Int"}, {"r c:E,G p Int", "auth(E, G) &Int"}, {"r c:F,G p Int", "auth(F, G) &Int"},
+	{"r d:E,F p Int", "auth(E | F) &Int"}, {"r d:E,G p Int", "auth(E | G) &Int"}, {"o r c:E,G p Int", "(auth(E, G) &Int)?"},
+	{"va r c:E,F p Int", "[auth(E, F) &Int]"}, {"va r c:E,G p Int", "[auth(E, G) &Int]"}, {"va r c:F,G p Int", "[auth(F, G) &Int]"},
+	{"va r d:E,F p Int", "[auth(E | F) &Int]"}, {"va r d:E,G p Int", "[auth(E | G) &Int]"}, {"va r d:F,G p Int", "[auth(F | G) &Int]"},
+	{"va r c:E,F,G p Int", "[auth(E, F, G) &Int]"}, {"va r d:E,F,G p Int", "[auth(E | F | G) &Int]"},
+	{"ca 1 r c:E,G p Int", "[auth(E, G) &Int; 1]"}, {"va o r c:E,G p Int", "[(auth(E, G) &Int)?]"}, {"va va r d:E,G p Int", "[[auth(E | G) &Int]]"},
+	{"d p String r c:E,F p Int", "{String: auth(E, F) &Int}"}, {"d p String r c:E,G p Int", "{String: auth(E, G) &Int}"},
+	{"d p String r d:E,G p Int", "{String: auth(E | G) &Int}"},
+	{"o va r c:E,G p Int", "[auth(E, G) &Int]?"}, {"o d p String r d:E,G p Int", "{String: auth(E | G) &Int}?"},
 	{"capany", "Capability"}, {"cap r u p Int", "Capability<&Int>"}, {"cap r u p AnyStruct", "Capability<&AnyStruct>"},
 	{"f impure 1 p Int p Int", "fun(Int): Int"}, {"f impure 1 p Int8 p Integer", "fun(Int8): Integer"}, {"f view 1 p Int p Int", "view fun(Int): Int"},
 }
@@ -169,6 +207,9 @@ func castRun(src string, useVM bool) (*cdc.Outcome, []string) {
 }
 
 func execCast(op []string) string {
+	if op[1] == "both" {
+		return execRcast(op)
+	}
 	// op: cast ENGINE VALUE-ENC DECLARED-TYPE TYPE-ENC
 	val := castFind(op[2] + "|" + op[3])
 	if val == nil {
@@ -184,11 +225,7 @@ func execCast(op []string) string {
 		panic("unknown type " + op[4])
 	}
 	useVM := op[1] == "vm"
-	optionalTarget := strings.HasPrefix(ty.enc, "o ")
-	rty := `"-"`
-	if !optionalTarget {
-		rty = `r.getType().identifier`
-	}
+	rty := `r.getType().identifier`
 	// `if let` tests whether the cast produced a value (comparing `v as? T?` with nil does not: a
 	// successful cast of nil is `Some(nil)`, which equals nil)
 	src := castDecls + `
@@ -226,7 +263,152 @@ access(all) fun main(): [AnyStruct] {
 	return "c=" + res[0] + " i=" + res[1] + " g=" + res[2] + " rty=" + castLocRe.ReplaceAllString(res[3], "") + " f=" + f
 }
 
+// ---- resources ----
+
+const (
+	castR  = "comp R resource RI 0"
+	castR2 = "comp R2 resource - 0"
+	castRI = "if RI resource -"
+	castRK = "if RK resource -"
+)
+
+// resource values: `let v: @typ <- expr` after `setup`
+var rcastValues = []castValue{
+	{"at " + castR, "", "@R", "create R()"},
+	{"sm at " + castR, "", "@R?", "create R()"},
+	{"sm sm at " + castR, "", "@R??", "create R()"},
+	{"sm sm sm at " + castR, "", "@R???", "create R()"},
+	{"nil", "", "@R?", "nil"},
+	{"nil", "", "@R??", "nil"},
+	{"at " + castR2, "", "@R2", "create R2()"},
+	{"sm sm at " + castR2, "", "@R2??", "create R2()"},
+	// statically typed as an interface / AnyResource (the static value type is not the run-time type)
+	{"at " + castR, "", "@{RI}", "create R()"},
+	{"at " + castR, "", "@AnyResource", "create R()"},
+	{"sm at " + castR, "", "@AnyResource?", "create R()"},
+	{"sm sm at " + castR, "let w: @R?? <- create R()", "@AnyResource", "w"},
+	{"sm sm at " + castR, "let w: @R?? <- create R()", "@AnyResource?", "w"},
+	{"sm sm at " + castR, "let w: @{RI}?? <- create R()", "@AnyResource??", "w"},
+	// containers
+	{"at va " + castR, "", "@[R]", "[<-create R()]"},
+	{"at va o " + castR, "", "@[R?]", "[<-create R()]"},
+	{"at va o o " + castR, "", "@[R??]", "[<-create R()]"},
+	{"at va p AnyResource", "", "@[AnyResource]", "[<-create R()]"},
+	{"at va in 1 " + castRI, "", "@[{RI}]", "[<-create R()]"},
+	{"at ca 1 " + castR, "", "@[R; 1]", "[<-create R()]"},
+	{"sm at va " + castR, "", "@[R]?", "[<-create R()]"},
+	{"sm sm at va o " + castR, "", "@[R?]??", "[<-create R()]"},
+	{"at va va " + castR, "", "@[[R]]", "[<-[<-create R()]]"},
+	{"at d p String " + castR, "", "@{String: R}", `{"a": <-create R()}`},
+	{"at d p String o " + castR, "", "@{String: R?}", `{"a": <-create R()}`},
+	{"sm sm at d p String " + castR, "", "@{String: R}??", `{"a": <-create R()}`},
+}
+
+var rcastTypes = []castType{
+	{"p AnyResource", "@AnyResource"}, {"o p AnyResource", "@AnyResource?"}, {"o o p AnyResource", "@AnyResource??"},
+	{"o o o p AnyResource", "@AnyResource???"},
+	{castR, "@R"}, {"o " + castR, "@R?"}, {"o o " + castR, "@R??"}, {"o o o " + castR, "@R???"},
+	{castR2, "@R2"}, {"o " + castR2, "@R2?"},
+	{"in 1 " + castRI, "@{RI}"}, {"o in 1 " + castRI, "@{RI}?"}, {"o o in 1 " + castRI, "@{RI}??"}, {"in 1 " + castRK, "@{RK}"},
+	{"va " + castR, "@[R]"}, {"va o " + castR, "@[R?]"}, {"va o o " + castR, "@[R??]"},
+	{"va p AnyResource", "@[AnyResource]"}, {"va o p AnyResource", "@[AnyResource?]"},
+	{"va in 1 " + castRI, "@[{RI}]"}, {"va " + castR2, "@[R2]"}, {"ca 1 " + castR, "@[R; 1]"}, {"ca 2 " + castR, "@[R; 2]"},
+	{"o va " + castR, "@[R]?"}, {"o o va p AnyResource", "@[AnyResource]??"}, {"va va " + castR, "@[[R]]"},
+	{"d p String " + castR, "@{String: R}"}, {"d p String o " + castR, "@{String: R?}"},
+	{"d p String p AnyResource", "@{String: AnyResource}"}, {"o d p String " + castR, "@{String: R}?"},
+}
+
+// the types the cast result is asked `isInstance` of
+var rcastProbes = []string{"@R", "@R?", "@R??", "@{RI}", "@AnyResource", "@[R]", "@[R?]", "@[AnyResource]", "@{String: R}"}
+
+func rcastProbeExpr(v string) string {
+	parts := make([]string, len(rcastProbes))
+	for i, p := range rcastProbes {
+		parts[i] = `(` + v + `.isInstance(Type<` + p + `>()) ? "1" : "0")`
+	}
+	return parts[0] + `.concat(` + strings.Join(parts[1:], `).concat(`) + `)`
+}
+
+func rcastOne(val *castValue, ty *castType, useVM bool) string {
+	src := castDecls + `
+access(all) fun main(): [AnyStruct] {
+  ` + val.setup + `
+  let v: ` + val.typ + ` <- ` + val.expr + `
+  let i = v.isInstance(Type<` + ty.src + `>())
+  let g = v.getType().isSubtype(of: Type<` + ty.src + `>())
+  let vty = v.getType().identifier
+  var c = false
+  var rty = "-"
+  var ri = "-"
+  if let r <- v as? ` + ty.src + ` {
+    c = true
+    rty = r.getType().identifier
+    ri = ` + rcastProbeExpr("r") + `
+    destroy r
+  } else {
+    destroy v
+  }
+  return [c, i, g, vty, rty, ri]
+}`
+	out, res := castRun(src, useVM)
+	if res == nil {
+		return "err:" + out.Class + ":" + out.Kind
+	}
+	src2 := castDecls + `
+access(all) fun main(): [AnyStruct] {
+  ` + val.setup + `
+  let v: ` + val.typ + ` <- ` + val.expr + `
+  let r <- v as! ` + ty.src + `
+  let frty = r.getType().identifier
+  let fri = ` + rcastProbeExpr("r") + `
+  destroy r
+  return [frty, fri]
+}`
+	f, frty, fri := "ok", "-", "-"
+	out2, res2 := castRun(src2, useVM)
+	if res2 == nil {
+		if strings.Contains(out2.Kind, "ForceCastTypeMismatchError") {
+			f = "fail"
+		} else {
+			f = "err:" + out2.Class + ":" + out2.Kind
+		}
+	} else {
+		frty, fri = castLocRe.ReplaceAllString(res2[0], ""), res2[1]
+	}
+	return "c=" + res[0] + " i=" + res[1] + " g=" + res[2] + " vty=" + castLocRe.ReplaceAllString(res[3], "") +
+		" rty=" + castLocRe.ReplaceAllString(res[4], "") + " ri=" + res[5] + " f=" + f + " frty=" + frty + " fri=" + fri
+}
+
+func execRcast(op []string) string {
+	// op: cast both VALUE-ENC DECLARED-TYPE TYPE-ENC
+	var val *castValue
+	for i := range rcastValues {
+		if rcastValues[i].enc == op[2] && rcastValues[i].typ == op[3] {
+			val = &rcastValues[i]
+		}
+	}
+	if val == nil {
+		panic("unknown value " + op[2])
+	}
+	var ty *castType
+	for i := range rcastTypes {
+		if rcastTypes[i].enc == op[4] {
+			ty = &rcastTypes[i]
+		}
+	}
+	if ty == nil {
+		panic("unknown type " + op[4])
+	}
+	return rcastOne(val, ty, false) + " || " + rcastOne(val, ty, true)
+}
+
 func genCast(c *hx.Ctx) {
+	// resources: every value × every target type, both engines in one operation
+	for i := range rcastValues {
+		for j := range rcastTypes {
+			c.Emit("cast", "both", rcastValues[i].enc, rcastValues[i].typ, rcastTypes[j].enc)
+		}
+	}
 	// the full cross product values × target types × engines runs in a few seconds: exhaustive in both tiers
 	for i := range castValues {
 		for j := range castTypes {
